@@ -14,6 +14,9 @@ use crate::spec::*;
 pub enum DnOp {
 	Push(u8, DnValueSpec),
 	Remove(u8),
+	/// encode the name as it stands (in a CSR through a reference, or in a certificate made from a
+	/// clone) and go on editing the same object afterwards
+	Encode(bool),
 }
 
 #[derive(Clone, Debug, Serialize, Deserialize, PartialEq, Eq, Hash)]
@@ -72,13 +75,43 @@ fn observe(dn: &rcgen::DistinguishedName, model: &Model, alphabet: &[DnTypeSpec]
 	Ok(())
 }
 
+fn encode_key() -> Result<rcgen::KeyPair, String> {
+	crate::keys::make_key(&KeySpec { alg: KeyAlg::Ed25519, idx: 5, rsa_hash: RsaHash::Sha256, remote: !cfg!(feature = "crypto") })
+}
+
 fn interpret(ops: &[DnOp], alphabet: &[DnTypeSpec], check: bool) -> Result<(rcgen::DistinguishedName, Model, bool), String> {
-	let mut dn = rcgen::DistinguishedName::new();
+	// the name lives inside the parameters it is encoded from, as it does in a caller's program
+	let mut params = rcgen::CertificateParams::default();
+	params.distinguished_name = rcgen::DistinguishedName::new();
+	params.key_identifier_method = rcgen::KeyIdMethod::PreSpecified(vec![1]);
 	let mut model: Model = Vec::new();
 	let mut interesting = false;
 	let mut removed: Vec<DnTypeSpec> = Vec::new();
+	let mut encoded_before = false;
 	for (step, op) in ops.iter().enumerate() {
+		let dn = &mut params.distinguished_name;
 		match op {
+			DnOp::Encode(as_csr) => {
+				if !check {
+					continue;
+				}
+				let key = encode_key()?;
+				if *as_csr {
+					let csr = params.serialize_request(&key).map_err(|e| format!("step {step}: serialize_request failed: {e}"))?;
+					let (c, _) = decode_csr(csr.der())?;
+					model::name_matches(&c.subject, &model, &format!("step {step}: subject encoded in a CSR"))?;
+				} else {
+					let cert = params.clone().self_signed(&key).map_err(|e| format!("step {step}: self_signed failed: {e}"))?;
+					let (c, _) = decode_cert(cert.der())?;
+					model::name_matches(&c.subject, &model, &format!("step {step}: subject encoded in a certificate"))?;
+					model::name_matches(&c.issuer, &model, &format!("step {step}: issuer encoded in a certificate"))?;
+				}
+				if encoded_before {
+					interesting = true; // encoded, edited or not, encoded again
+				}
+				encoded_before = true;
+				continue;
+			},
 			DnOp::Push(ti, v) => {
 				let t = &alphabet[*ti as usize % alphabet.len()];
 				// a value the constructor refuses cannot be pushed by any caller: the operation is a no-op
@@ -112,10 +145,10 @@ fn interpret(ops: &[DnOp], alphabet: &[DnTypeSpec], check: bool) -> Result<(rcge
 			},
 		}
 		if check {
-			observe(&dn, &model, alphabet, step)?;
+			observe(&params.distinguished_name, &model, alphabet, step)?;
 		}
 	}
-	Ok((dn, model, interesting))
+	Ok((params.distinguished_name, model, interesting))
 }
 
 pub fn check_history(h: &History, info: &mut CaseInfo) -> Result<(), String> {
@@ -155,7 +188,7 @@ pub fn check_history(h: &History, info: &mut CaseInfo) -> Result<(), String> {
 		info.class("encoded");
 		let mut params = rcgen::CertificateParams::default();
 		params.distinguished_name = dn;
-		let key = crate::keys::make_key(&KeySpec { alg: KeyAlg::Ed25519, idx: 5, rsa_hash: RsaHash::Sha256, remote: !cfg!(feature = "crypto") })?;
+		let key = encode_key()?;
 		params.key_identifier_method = rcgen::KeyIdMethod::PreSpecified(vec![1]);
 		let cert = params.self_signed(&key).map_err(|e| format!("self_signed failed: {e}"))?;
 		let (c, _) = decode_cert(cert.der())?;
@@ -174,10 +207,11 @@ fn small_ops() -> Vec<DnOp> {
 		}
 		ops.push(DnOp::Remove(t));
 	}
+	ops.push(DnOp::Encode(true));
 	ops
 }
 
-/// All operation sequences up to length 5 (quick) / 6 (thorough) over 9 operations.
+/// All operation sequences up to length 5 (quick) / 6 (thorough) over 10 operations.
 fn exhaustive(cfg: &RunCfg) -> Vec<History> {
 	let ops = small_ops();
 	let max = if cfg.tier == Tier::Thorough { 6 } else { 5 };
@@ -198,23 +232,48 @@ fn exhaustive(cfg: &RunCfg) -> Vec<History> {
 	// each sequence is compared (==) with its predecessor in enumeration order and the one 9 back
 	let n = all.len();
 	(0..n)
-		.map(|i| History { small: true, ops: all[i].clone(), other: all[if i % 2 == 0 { i.saturating_sub(1) } else { i.saturating_sub(9) }].clone() })
+		.map(|i| History { small: true, ops: all[i].clone(), other: all[if i % 2 == 0 { i.saturating_sub(1) } else { i.saturating_sub(10) }].clone() })
 		.collect()
 }
 
 fn op(n_types: u8) -> impl Strategy<Value = DnOp> {
 	prop_oneof![
-		3 => (0..n_types, gen::dn_value()).prop_map(|(t, v)| DnOp::Push(t, v)),
-		2 => (0..n_types).prop_map(DnOp::Remove),
+		6 => (0..n_types, gen::dn_value()).prop_map(|(t, v)| DnOp::Push(t, v)),
+		4 => (0..n_types).prop_map(DnOp::Remove),
+		1 => any::<bool>().prop_map(DnOp::Encode),
 	]
+}
+
+/// The same history with every pushed text varied in a way a case- or whitespace-insensitive
+/// comparison would not see (the kinds stay, the texts stay inside their alphabets).
+fn vary_values(ops: &[DnOp], how: u8) -> Vec<DnOp> {
+	ops.iter()
+		.map(|o| match o {
+			DnOp::Push(t, v) if !v.attempt => {
+				let text = match how % 4 {
+					0 => v.text.to_ascii_uppercase(),
+					1 => v.text.to_ascii_lowercase(),
+					2 => format!(" {}", v.text),
+					_ => v.text.replace(' ', "  ") + " ",
+				};
+				if text.chars().all(|c| v.kind.admits(c)) {
+					DnOp::Push(*t, DnValueSpec::new(v.kind, text))
+				} else {
+					o.clone()
+				}
+			},
+			other => other.clone(),
+		})
+		.collect()
 }
 
 fn random_history() -> BoxedStrategy<History> {
 	(proptest::collection::vec(op(12), 0..60), proptest::collection::vec(op(12), 0..8), any::<u8>())
 		.prop_map(|(ops, tail, mode)| {
 			// the second history: identical, a permuted prefix, or a variation with a different tail
-			let other = match mode % 4 {
+			let other = match mode % 6 {
 				0 => ops.clone(),
+				4 | 5 => vary_values(&ops, mode / 6),
 				1 => {
 					let mut o = ops.clone();
 					o.extend(tail);
@@ -236,8 +295,12 @@ fn random_history() -> BoxedStrategy<History> {
 fn dense_history() -> BoxedStrategy<History> {
 	(proptest::collection::vec(op(3), 0..24), any::<u8>())
 		.prop_map(|(ops, mode)| {
-			let other = if mode % 2 == 0 { ops.iter().rev().cloned().collect() } else { ops[..ops.len() / 2].to_vec() };
-			History { small: mode % 3 == 0, ops, other }
+			let other = match mode % 3 {
+				0 => ops.iter().rev().cloned().collect(),
+				1 => ops[..ops.len() / 2].to_vec(),
+				_ => vary_values(&ops, mode / 3),
+			};
+			History { small: mode % 5 == 0, ops, other }
 		})
 		.boxed()
 }
@@ -245,7 +308,7 @@ fn dense_history() -> BoxedStrategy<History> {
 pub fn def() -> PropertyDef {
 	PropertyDef {
 		id: "C20",
-		rule: "Operation sequences push(type, value) / remove(type) interpreted against DistinguishedName and against a Vec<(type, value)> model, observed after every step (iter, get for every type of the alphabet, remove's return value, no duplicates), plus the equality relation against a second history, a rebuilt name and a clone, plus the encoded order in a certificate. Bounded-exhaustive: every sequence up to length 5 (quick; 66 430) / 6 (thorough; 597 871) over 9 operations (3 types incl. a custom OID equal to a standard one x 2 values + 3 removes); random: length <= 60 over 12 types and all six value kinds. Non-trivial = the history contains a replace or a push of a previously removed type.",
+		rule: "Operation sequences push(type, value) / remove(type) / encode (the name, which lives inside the CertificateParams it is encoded from, is written into a CSR through a reference or into a certificate from a clone, the decoded subject must be the model at that step, and editing goes on afterwards) interpreted against DistinguishedName and against a Vec<(type, value)> model, observed after every step (iter, get for every type of the alphabet, remove's return value, no duplicates), plus the equality relation against a second history (identical, extended, reversed, unrelated, or the same history with every text changed only in letter case or white space), a rebuilt name and a clone, plus the encoded order in a certificate. Bounded-exhaustive: every sequence up to length 5 (quick; 111 111) / 6 (thorough; 1 111 111) over 10 operations (3 types incl. a custom OID equal to a standard one x 2 values + 3 removes + encode); random: length <= 60 over 12 types and all six value kinds. Non-trivial = the history contains a replace, a push of a previously removed type, or a second encode.",
 		assumptions: vec!["the Vec model is the specification (insertion order since last absence, latest value)"],
 		subs: vec![
 			sweep_sub("exhaustive", exhaustive, check_history),
